@@ -164,11 +164,12 @@ class EfermiObjective:
         state = {}
 
         def run(it):
+            captured.clear()  # per path: EVERY path with a positive width has to reach the root finder
             f = it.lookup_global("get_Efermi", m)
             it.call(f, [occ, eps], {})
             fn = captured.get("f")
             if fn is None:
-                raise OutsideSubset("root_scalar was not called")
+                raise OutsideSubset("a path with smearing > 0 returns without calling the root finder")
             # the recursive definition of the ghost sum uses the state-sum term of the arbitrary iteration
             val = it.call(fn, [mu], {})
             return val, None
@@ -176,11 +177,23 @@ class EfermiObjective:
         try:
             res = explore(w, run, assumptions=base, ext=ext, loop_specs=specs)
         except OutsideSubset as e:
+            # outside the modelled subset: the contract is evaluated natively (a failure is a refutation by a concrete input, a pass proves nothing)
+            wit = dict(clause="native", reason=str(e)[:200])
+            ok, info = self.replay(wit)
+            if ok:
+                return Result(REFUTED, backend="native", witness=wit, replayed=True, replay_info=info, detail=f"smeared fillings through get_Efermi do not sum to Nelec: {info}")
             return Result(UNDECIDED, backend="engine-Z", detail=str(e))
         # obligations: invariant entry / preservation need the definition PS(i+1) = PS(i) + wk[i] * S_i where S_i is the term the
         # body computed; we *define* PS that way and then require the body's increment to be exactly wk[i] * statesum(...)
         nobl = 0
         for r in res:
+            if r.outcome not in ("return", "cut"):
+                # a feasible path with a positive width that does not end in the objective of the root finder (an exception in the traced code)
+                wit = dict(clause="native", reason=f"path outcome {r.outcome}")
+                ok, info = self.replay(wit)
+                if ok:
+                    return Result(REFUTED, backend="native", witness=wit, replayed=True, replay_info=info, detail=f"get_Efermi with a positive smearing width does not reach the root finder on every path ({r.outcome}): {info}")
+                return Result(UNDECIDED, backend="engine-Z", detail=f"a path with smearing > 0 ends with {r.outcome}; the native evaluation passes")
             for label, pc, formula in r.interp.obligations:
                 if "preserved" in label:
                     # formula: occ_sum' == PS(i+1). Under the hypothesis occ_sum == PS(i) (in pc) this requires
@@ -245,7 +258,10 @@ class EfermiObjective:
         o.bands = 4
         o.fill()
         eps = np.array([[[-0.5, -0.1, 0.0, 0.2]], [[-0.3, 0.05, 0.1, 0.4]]])
-        o.smear(eps)
+        try:
+            o.smear(eps)
+        except Exception as e:  # noqa: BLE001
+            return True, dict(weights=[0.25, 0.75], smearing=0.05, raised=f"{type(e).__name__}: {e}")
         tot = float(np.sum(np.asarray(o.wk)[:, None, None] * np.asarray(o.f)))
         return bool(abs(tot - 4) > 1e-8), dict(weights=[0.25, 0.75], weighted_filling_sum=tot, Nelec=4)
 
